@@ -92,7 +92,8 @@ def rule_state_writers(ctx):
             continue
         for bb in range(len(f.blocks)):
             for names, kind, node in Q.stmt_field_writes(f, bb, ST):
-                writers.setdefault(root_fn(f).qname.split("::", 2)[-1], set()).update(names)
+                for r in common.owner_roots(ctx, f):
+                    writers.setdefault(r.qname.split("::", 2)[-1], set()).update(names)
     exp = {"limiter::State::advance": {"permits", "refresh_ticks"}, "limiter::Limiter::acquire": {"reserved"}, "<zksync_concurrency::limiter::Permit as std::ops::Drop>::drop": {"reserved", "permits"}}
     norm = {k.replace("zksync_concurrency::", "") if not k.startswith("<") else k: v for k, v in writers.items()}
     exp2 = {"State::advance": {"permits", "refresh_ticks"}, "Limiter::acquire": {"reserved"}}
